@@ -8,7 +8,7 @@ rsync -a --exclude .git /repo/ "$D/"
 ( cd "$D" && git init -q . >/dev/null 2>&1; git apply "$DF" ) || { echo "DOES NOT APPLY"; exit 2; }
 ( cd "$D" && go build ./... ) || { echo "build fails"; exit 2; }
 for P in $PROPS; do
-  OUT=$(SBPF_REPO=$D /verif/bin/sbpfcheck -prop $P -tier quick -verif "$D/.verif" 2>&1); RC=$?
+  OUT=$(SBPF_REPO=$D ${SBPF_BIN:-/verif/bin/sbpfcheck} -prop $P -tier quick -verif "$D/.verif" 2>&1); RC=$?
   echo "$OUT" | grep -E "$PAT" | cut -c1-500 | head -${LINES_MAX:-12}
   echo "== $P exit=$RC"
 done
